@@ -120,6 +120,16 @@ pub fn gen_case(rng: &mut Rng, kind: &str) -> Case {
 	if kind == "c04" {
 		return gen_case_btree(rng)
 	}
+	// a share of the map histories runs over an index that grows: log records that belong to no commit
+	// (reindex batches) then sit between the records of the commits
+	if kind == "c01" && rng.chance(1, 8) {
+		let mut c = gen_case_growth(rng, Some(false));
+		c.class = "c09".into();
+		return c
+	}
+	if kind == "c07" && rng.chance(1, 8) {
+		return gen_case_growth(rng, Some(true))
+	}
 	let salt_zero = rng.chance(1, 2);
 	let ncols = rng.range(1, 3) as usize;
 	let nkeys = rng.range(3, 9) as usize;
@@ -417,6 +427,31 @@ pub fn gen_case_growth(rng: &mut Rng, force_rc: Option<bool>) -> Case {
 			if rng.chance(1, 4) {
 				steps.push(Step::Flush);
 				steps.push(Step::EnactAll);
+			}
+		}
+	}
+	// queue wave: several commits that write the same few keys wait in the queue together and are then
+	// moved on one at a time (every read is checked after every step)
+	if rng.chance(1, 2) {
+		let c = 0usize;
+		let few: Vec<usize> = (0..rng.range(1, 3)).map(|_| rng.below(nkeys as u64) as usize).collect();
+		let depth = rng.range(2, 6);
+		for _ in 0..depth {
+			let mut ops: Vec<(u8, u8, usize, u64)> = Vec::new();
+			for k in &few {
+				if !rng.chance(3, 4) {
+					continue
+				}
+				let opc = if cols[c].rc { *rng.pick(&[0u8, 0, 1, 2]) } else { *rng.pick(&[0u8, 0, 0, 1]) };
+				let vtok = if cols[c].preimage { fixed[c][*k] } else { (rng.range(1, 1 << 20) << 32) | rng.range(0, 80) };
+				ops.push((c as u8, opc, *k, if opc == 0 { vtok } else { 0 }));
+			}
+			steps.push(Step::Commit(ops));
+		}
+		for _ in 0..depth {
+			steps.push(Step::Process);
+			if rng.chance(1, 3) {
+				steps.push(Step::Reindex);
 			}
 		}
 	}
